@@ -1,7 +1,7 @@
 (* C17 Queriers are always closed exactly once; storage-owned data is never modified.
-   Property theorems only; proofs in LifeProofs.v. Partial: see the note below. *)
+   Property theorems only; proofs in LifeProofs.v and LifeOnce.v. Partial: see the note below. *)
 From Coq Require Import List ZArith NArith Bool.
-From Verif Require Import Life LifeProofs.
+From Verif Require Import Life LifeProofs LifeOnce.
 Import ListNotations.
 
 (* Unless the process crashed, when the execution returns every querier has been
@@ -26,6 +26,35 @@ Proof.
   rewrite E in H. exact H.
 Qed.
 Print Assumptions C17_engine_balanced.
+
+(* "Exactly once". The selectors of one execution have queriers of their own
+   (distinct names). Then, whatever faults are injected and wherever: a querier
+   is opened at most once; when Exec returns it has been closed exactly as
+   often as it was opened; at no moment of the execution has it been closed more
+   often than opened (no Close ahead of the Open, no second Close); and when the
+   execution succeeds every selector's querier was opened - hence closed -
+   exactly once. *)
+Theorem C17_engine_queriers_exactly_once : forall sels nsteps faults id,
+  NoDup (map fst sels) ->
+  let t := trace_of (exec_prog true sels nsteps) faults in
+  count_open id t <= 1 /\
+  count_close id t = count_open id t /\
+  never_ahead t /\
+  (status_of (exec_prog true sels nsteps) faults = SOk -> In id (map fst sels) -> count_open id t = 1).
+Proof. exact engine_queriers_exactly_once. Qed.
+Print Assumptions C17_engine_queriers_exactly_once.
+
+(* the same two facts for every program of the skeleton, crashing ones included *)
+Theorem C17_opened_at_most_once : forall p faults k k' t s id,
+  NoDup (qids p) -> run p faults k = (k', t, s) -> count_open id t <= 1.
+Proof. exact opened_at_most_once. Qed.
+Print Assumptions C17_opened_at_most_once.
+
+Theorem C17_never_closed_ahead_of_open : forall p faults k k' t s,
+  run p faults k = (k', t, s) ->
+  forall n id, count_close id (firstn n t) <= count_open id (firstn n t).
+Proof. exact run_never_ahead. Qed.
+Print Assumptions C17_never_closed_ahead_of_open.
 
 (* PARTIAL. "Closed no later than when Exec returns" relies on every goroutine
    being joined before its starter returns (the skeleton's Go is synchronous);
